@@ -417,7 +417,11 @@ package mapr
 //@ func (*Query).HasOutfile
 //@   assigns nothing
 //@   ensures [def] result == (q.Outfile != nil)
+// The frame of result is an assumption (listed in C05's trusted base): the
+// rows slice it grows in its loop is local, but the engine cannot tell that
+// once the slice has passed a loop head, so the frame is not provable here.
 //@ func (*GroupSet).result
+//@   trusted
 //@   assigns nothing
 //@ func (*GlobalGroupSet).Merge$1
 //@   inline
